@@ -34,6 +34,20 @@ type instance struct {
 	g     *mux.Group[*Comp]
 }
 
+// sharedGroup is the group that all "grouter" instances of the world being executed belong to (nil: every
+// such instance gets a group of its own, which is what the solo replicas use).  Routers of one group are
+// distinct Router instances: Group.Add hands each of them the group's middlewares, after which nothing
+// of the group may be reachable from a router's own mutations.
+var sharedGroup *mux.Group[*Comp]
+
+func newGroupWithUse() *mux.Group[*Comp] {
+	env := NewEnv()
+	env.Quiet = true // called from several tasks: no factory log, fixed builder ids
+	g := mux.NewGroup[*Comp](env.Call, env.Group404(idG404), env.NotAllowedBuilder(id405), env.OptionsBuilder(idOptions))
+	g.Use(env.MWs("G0", "G1")...)
+	return g
+}
+
 func newInstance(kind string, n int) *instance {
 	in := &instance{kind: kind, env: NewEnv()}
 	name := fmt.Sprintf("i%d", n)
@@ -48,6 +62,13 @@ func newInstance(kind string, n int) *instance {
 		in.r = NewSimRouter(in.env, RouterOpts{Name: name, Interceptors: []string{"digit", "word"}})
 	case "hosts":
 		in.hosts = mux.NewHosts(false)
+	case "grouter":
+		g := sharedGroup
+		if g == nil {
+			g = newGroupWithUse()
+		}
+		in.env.Quiet = true
+		in.r = g.New(name, nil)
 	case "group":
 		in.g = mux.NewGroup[*Comp](in.env.Call, in.env.Group404(idG404), in.env.NotAllowedBuilder(id405), in.env.OptionsBuilder(idOptions), optBase...)
 		in.r = in.g.New(name, nil, mux.WithURLDomain("https://"+name+".example"))
@@ -65,7 +86,7 @@ func (in *instance) do(op *Op) (out string) {
 		}
 	}()
 	switch op.K {
-	case "handle", "remove", "clean":
+	case "handle", "remove", "clean", "use":
 		if in.r == nil {
 			return "n/a"
 		}
@@ -82,6 +103,9 @@ func (in *instance) do(op *Op) (out string) {
 			return "n/a"
 		}
 		o := Serve(in.r, *op.Req, nil, nil)
+		if in.kind == "grouter" {
+			return o.Key() + " mw=" + strings.Join(o.Trace, ",")
+		}
 		return o.Key()
 	case "routes":
 		if in.r == nil {
@@ -152,6 +176,11 @@ func genInstanceScript(r *Rng, kind string, t int, n int) []Op {
 			ops = append(ops, op)
 			continue
 		}
+		if kind == "grouter" && r.Pct(22) {
+			op.K, op.MW = "use", []string{fmt.Sprintf("R%d_%d", t, i)} // Router.Use on a router that belongs to a group
+			ops = append(ops, op)
+			continue
+		}
 		if kind == "group" && r.Pct(12) {
 			op.K, op.Name = "gnew2", fmt.Sprintf("x%d-%d", t, i)
 			ops = append(ops, op)
@@ -202,7 +231,7 @@ func genC07(r *Rng, idx int, tier string) *World {
 		n := r.Range(2, 3)
 		var kinds []string
 		for t := 0; t < n; t++ {
-			kind := pick(r, []string{"router", "router", "lrouter", "trouter", "irouter", "hosts", "group"})
+			kind := pick(r, []string{"router", "router", "lrouter", "trouter", "irouter", "hosts", "group", "grouter", "grouter"})
 			kinds = append(kinds, kind)
 			w.Tasks = append(w.Tasks, genInstanceScript(r, kind, t, r.Range(2, 6)))
 		}
@@ -427,9 +456,15 @@ func execC07(w *World, st *Stats) (*Violation, RunInfo) {
 	switch w.Variant {
 	case "b":
 		ins := make([]*instance, len(w.Tasks))
+		sharedGroup = nil
+		if contains(kinds, "grouter") {
+			sharedGroup = newGroupWithUse() // all routers-of-a-group of this world are built by one group, before the tasks start
+			st.C("routers_of_one_group")
+		}
 		for t := range w.Tasks {
 			ins[t] = newInstance(kinds[t], t)
 		}
+		sharedGroup = nil
 		logs, sw := runTasks(w, func(task int, op *Op) string { return ins[task].do(op) })
 		info.Interleave, info.Events, info.Sched = sw.Hash(), sw.Steps(), sw.Recorded()
 		info.Shape = hashU(info.Shape, sw.Hash())
